@@ -571,6 +571,58 @@ func tableCases(r *hlib.SplitMix64, seedBase int) []e2eCase {
 			cs = append(cs, e2eCase{Kind: "e2e", Class: class, Proto: proto, Argv: argv, Want: w, NWant: len(w), Pin: pin, Seed: int64(seedBase + len(cs))})
 		}
 	}
+	// the same port commands with the ports given by --ports-file only (single ports, a range, a comment, a repeated
+	// port): the option parsing of every command must hand the list to the scan exactly once
+	pf := tgt.WriteTemp(tmpDir, "ports.txt", "7001\n7002-7003\n# note\n 7003 \n")
+	pfPorts := []int{7001, 7002, 7003, 7003}
+	for i, c := range packetCommands() {
+		proto, _ := cmdProto(c)
+		if proto != "tcp" && proto != "udp" {
+			continue
+		}
+		var base []string
+		for k := 0; k < len(c); k++ {
+			if c[k] == "-p" {
+				k++
+				continue
+			}
+			base = append(base, c[k])
+		}
+		a := o | uint32(4*((2*i+1)%60)) | 64
+		var addrs []uint32
+		for j := uint32(0); j < 4; j++ {
+			addrs = append(addrs, a+j)
+		}
+		argv := append(base, "--ports-file", pf, "-i", "v0", "--exit-delay", "150ms", "--json", tgt.Dotted(a)+"/30")
+		w := crossWant(addrs, pfPorts)
+		cs = append(cs, e2eCase{Kind: "e2e", Class: cmdName(c) + ":ports-file", Proto: proto, Argv: argv, Want: w, NWant: len(w), Seed: int64(seedBase + len(cs))})
+	}
+	// the application scans with every proxy variable of the environment pointing at a decoy listener: the probes
+	// still go to the targets (local addresses with a listener), each target is contacted, nothing else is
+	ta, decoy := o|224, o|250
+	dk := fmt.Sprintf("%s:9999", tgt.Dotted(decoy))
+	env := []string{"HTTP_PROXY=http://" + dk, "http_proxy=http://" + dk, "HTTPS_PROXY=http://" + dk, "https_proxy=http://" + dk,
+		"ALL_PROXY=socks5://" + dk, "all_proxy=socks5://" + dk, "DOCKER_HOST=tcp://" + dk}
+	for _, c := range [][]string{{"socks", "-p", "1080"}, {"elastic", "-p", "9200"}, {"docker", "-p", "2375"}, {"elastic", "--proto", "https", "-p", "9243"}} {
+		port := 0
+		fmt.Sscan(c[len(c)-1], &port)
+		var loc []string
+		var addrs []uint32
+		for j := uint32(0); j < 4; j++ {
+			addrs = append(addrs, ta+j)
+			loc = append(loc, tgt.Dotted(ta+j))
+		}
+		loc = append(loc, tgt.Dotted(decoy))
+		name := c[0]
+		if len(c) > 3 {
+			name += "-https"
+		}
+		argv := append(append([]string{}, c...), "--exit-delay", "100ms", "-t", "400ms", "-w", "4", tgt.Dotted(ta)+"/30")
+		w := crossWant(addrs, []int{port})
+		cs = append(cs, e2eCase{Kind: "e2e", Class: name + ":proxy-env", Proto: fmt.Sprintf("listen:%d,9999", port), Argv: argv, Want: w, NWant: len(w),
+			Env: env, Local: strings.Join(loc, ","), SetSem: true,
+			Decoy: hex.EncodeToString([]byte{byte(decoy >> 24), byte(decoy >> 16), byte(decoy >> 8), byte(decoy), 0x27, 0x0f}), Seed: int64(seedBase + len(cs))})
+	}
 	return cs
 }
 
